@@ -284,21 +284,29 @@ pub open spec fn cl_preamble<CS: CipherSuite>(st: ClientLogin<CS>, pw: Seq<u8>, 
     rfc_preamble(ctx_of(p.context), eff_id(p.identifiers.client, cpk_bytes), creq, eff_id(p.identifiers.server, spk_bytes), l2,
         resp.ke2_message.server_nonce@, <CS::KeGroup as KeGroup>::ser_pk(resp.ke2_message.server_e_pk.0))
 }
-/// the exact acceptance condition of the client's finish step
-pub open spec fn cl_accepts<CS: CipherSuite>(st: ClientLogin<CS>, pw: Seq<u8>, resp: CredentialResponse<CS>, p: ClientLoginFinishParameters<CS>) -> bool {
-    let rpr = rp_of::<CS>(pw, st.oprf_client.blind_of(), resp.evaluation_element.v(), p.ksf);
-    let rp = rpr->Ok_0;
+/// envelope gate (RFC 9807 4.1.3 Recover): the unmasked bytes decode to a server key and carry an auth_tag that verifies under the
+/// key derived from THIS password, over THIS server key and THESE identities
+pub open spec fn cl_env_ok<CS: CipherSuite>(st: ClientLogin<CS>, pw: Seq<u8>, resp: CredentialResponse<CS>, p: ClientLoginFinishParameters<CS>) -> bool {
+    let rp = cl_rp::<CS>(st, pw, resp, p);
     let mk = rfc_masking_key::<CS>(rp);
     let nonce = cl_env_nonce::<CS>(st, pw, resp, p);
-    &&& st.credential_request.blinded_element.v() != resp.evaluation_element.v()
-    &&& rpr is Ok
     &&& cl_server_pk::<CS>(st, pw, resp, p) is Some
     &&& rfc_client_sk::<CS>(rp, nonce) is Ok
     &&& ids_fit(p.identifiers)
-    &&& cl_ctx_fit(p.context)
     &&& unmasked_tag::<CS>(mk, resp.masking_nonce@, resp.masked_response)
           == rfc_envelope_tag::<CS>(rp, nonce, <CS::KeGroup as KeGroup>::ser_pk(cl_server_pk::<CS>(st, pw, resp, p)->0), p.identifiers)
-    &&& resp.ke2_message.mac@ == rfc_server_mac::<OprfHash<CS>>(cl_prk::<CS>(st, pw, resp, p), cl_preamble::<CS>(st, pw, resp, p))
+}
+/// server-MAC gate (RFC 9807 6.4.3 AuthClientFinalize): the MAC in the response verifies over the transcript of THIS request and THIS response
+pub open spec fn cl_mac_ok<CS: CipherSuite>(st: ClientLogin<CS>, pw: Seq<u8>, resp: CredentialResponse<CS>, p: ClientLoginFinishParameters<CS>) -> bool {
+    cl_ctx_fit(p.context)
+        && resp.ke2_message.mac@ == rfc_server_mac::<OprfHash<CS>>(cl_prk::<CS>(st, pw, resp, p), cl_preamble::<CS>(st, pw, resp, p))
+}
+/// the exact acceptance condition of the client's finish step
+pub open spec fn cl_accepts<CS: CipherSuite>(st: ClientLogin<CS>, pw: Seq<u8>, resp: CredentialResponse<CS>, p: ClientLoginFinishParameters<CS>) -> bool {
+    &&& st.credential_request.blinded_element.v() != resp.evaluation_element.v()
+    &&& rp_of::<CS>(pw, st.oprf_client.blind_of(), resp.evaluation_element.v(), p.ksf) is Ok
+    &&& cl_env_ok::<CS>(st, pw, resp, p)
+    &&& cl_mac_ok::<CS>(st, pw, resp, p)
 }
 
 // ---- server login start (RFC 9807 6.3.2.1 / 6.4.4) -----------------------------------------------------------------------------------
